@@ -509,6 +509,7 @@ func init() {
 			{Name: "dyadic-deep", N: func(c *Ctx) int { return tierN(c, 6000, 600000) }, Run: c14DyadicDeep},
 			{Name: "shortest-repr", N: func(c *Ctx) int { return tierN(c, 1500, 150000) }, Run: c14Shortest},
 			{Name: "float-quotients", N: func(c *Ctx) int { return tierN(c, 1500, 150000) }, Run: c14Quotients},
+			{Name: "integer-sums", N: func(c *Ctx) int { return tierN(c, 2000, 200000) }, Run: c14IntSums},
 			{Name: "precise", N: func(c *Ctx) int { return len(c14Precise) * len(c14PreciseTemplates) }, Run: c14PreciseRun, Exhaustive: true},
 			{Name: "boundary", N: func(c *Ctx) int { return len(c14Big) * len(c14BigTemplates) }, Run: c14Boundary, Exhaustive: true},
 		},
@@ -712,5 +713,101 @@ func c14Quotients(c *Ctx, idx int) {
 			}
 		}
 		c.Nontrivial(text, xs, ys)
+	}
+}
+
+// c14IntSums: sum / avg / max / min / sort over arrays of Go integers whose total creeps across
+// 2^63, 2^64, 2^31 or 2^32 in small steps: a large first element a few thousand short of the
+// boundary, then 3..40 small addends (1..2000) that carry the total across.  A native fast path that
+// guards with a rounded float total, or that wraps, answers differently from the decimal path; the
+// same numbers as json.Number and decimal128 are the reference.
+func c14IntSums(c *Ctx, idx int) {
+	r := c.Rand("")
+	bound := gen.Pick(r, []string{"9223372036854775808", "18446744073709551616", "2147483648", "4294967296", "9007199254740992", "-9223372036854775808"})
+	b, _ := new(big.Int).SetString(bound, 10)
+	neg := b.Sign() < 0
+	short := int64(1 + r.Intn(6000))
+	first := new(big.Int).Sub(new(big.Int).Abs(b), big.NewInt(short))
+	if neg {
+		first.Neg(first)
+		first.Sub(first, big.NewInt(0))
+	}
+	k := 3 + r.Intn(38)
+	var vals []*big.Int
+	vals = append(vals, first)
+	var acc int64
+	for i := 0; i < k; i++ {
+		a := int64(1 + r.Intn(2000))
+		if acc > short+3000 {
+			a = int64(1 + r.Intn(5))
+		}
+		acc += a
+		v := big.NewInt(a)
+		if neg {
+			v.Neg(v)
+		}
+		vals = append(vals, v)
+	}
+	if r.Chance(30) {
+		// the large element somewhere else
+		j := r.Intn(len(vals))
+		vals[0], vals[j] = vals[j], vals[0]
+	}
+	mk := func(kind int) ([]any, bool) {
+		out := make([]any, len(vals))
+		for i, v := range vals {
+			switch {
+			case kind == 0:
+				out[i] = json.Number(v.String())
+			case kind == 1 && v.IsInt64():
+				out[i] = v.Int64()
+			case kind == 2 && v.IsUint64():
+				out[i] = v.Uint64()
+			case kind == 2 && v.IsInt64():
+				out[i] = v.Int64()
+			case kind == 3:
+				d, err := decimal128.Parse(v.String())
+				if err != nil {
+					return nil, false
+				}
+				out[i] = d
+			case kind == 4 && v.IsInt64() && i > 0 && v.Int64() > -30000 && v.Int64() < 30000:
+				out[i] = []any{int16(v.Int64()), int32(v.Int64()), int(v.Int64()), uint16(uint64(new(big.Int).Abs(v).Int64()))}[map[bool]int{true: i % 3, false: i % 4}[v.Sign() < 0]]
+			case kind == 4 && v.IsInt64():
+				out[i] = v.Int64()
+			case kind == 5 && new(big.Int).Abs(b).BitLen() > 54:
+				return nil, false // (a float total beyond 2^53 is not exact: outside the property's precondition)
+			case kind == 5:
+				if f, acc := new(big.Float).SetInt(v).Float64(); acc == big.Exact {
+					out[i] = f
+				} else {
+					out[i] = json.Number(v.String())
+				}
+			default:
+				return nil, false
+			}
+		}
+		return out, true
+	}
+	for _, text := range []string{"sum(a)", "avg(a) * `" + fmt.Sprint(len(vals)) + "` == sum(a)", "sum(a) > `0`", "sum(a) - a[0]", "[max(a), min(a)]", "sort(a)[-1]", "sum(a[1:])", "sum(a) == `" + new(big.Int).Add(first, map[bool]*big.Int{false: big.NewInt(acc), true: big.NewInt(-acc)}[neg]).String() + "`", "sum(reverse(a))", "sum(map(&(@ + `0`), a))"} {
+		var base LibOut
+		for kind := 0; kind <= 5; kind++ {
+			a, ok := mk(kind)
+			if !ok {
+				continue
+			}
+			l := c.LibSearch(text, map[string]any{"a": a})
+			if l.Panic != nil {
+				continue
+			}
+			if kind == 0 {
+				base = l
+				continue
+			}
+			if !SameOutcome(base, l, false) {
+				c.Report(Violation{Rule: "C14/representation-dependent", Expr: text, Data: clipS(gen.Describe(a), 400), Got: ShowOut(l), Want: ShowOut(base) + "  (the same numbers as json.Number)", Features: map[string]string{"stream": "integer-sums", "boundary": bound}})
+			}
+		}
+		c.Nontrivial(text, fmt.Sprint(idx))
 	}
 }
